@@ -137,7 +137,7 @@ class StreamsInfoRead(Contract):
     opaque = ("archiveinfo:PackInfo.retrieve", "archiveinfo:UnpackInfo.retrieve", "archiveinfo:SubstreamsInfo.retrieve")
     noraise = ("BytesIO",)
     frame_preserving = ("BytesIO", "read")
-    assumptions = ("PackInfo.retrieve / UnpackInfo.retrieve / SubstreamsInfo.retrieve return the object they constructed (never None); their bodies are `obj = cls(...); obj._read(file); return obj`",)
+    assumptions = ("the section objects handed back by the `retrieve` class methods are not None: UnpackInfo.retrieve / SubstreamsInfo.retrieve are under contract below (they return the object they instantiate); PackInfo.retrieve is `return cls()._read(file)` and PackInfo._read ends in `return self` - that one is assumed",)
 
     def setup(self, c):
         me = c.obj("StreamsInfo", "py7zr.archiveinfo", packinfo=None, unpackinfo=None, substreamsinfo=None)
@@ -225,3 +225,57 @@ class StreamsInfoRead(Contract):
         # assumed contract of the three opaque `retrieve` class methods: they return the object they built, never None
         H = And(*[Not(eq(e.result, None)) for e in rets]) if rets else True
         return [(lbl, Implies(H, f)) for lbl, f in out]
+
+
+# ------------------------------------------------------------------------------------- the `retrieve` class methods
+def _retrieve_contract(clsname, reader, extra=(), props=("C06",)):
+    """`<Class>.retrieve(file, ...)`: returns the object it has just instantiated (an instantiation never yields None:
+    Python semantics), after exactly one call of the section reader ON THAT OBJECT with the caller's stream and
+    arguments, and nothing else."""
+    from pyvc.contract import get_module
+
+    class _R(Contract):
+        target = AI + clsname + ".retrieve"
+        abstract = True
+        opaque = ("archiveinfo:%s.%s" % (clsname, reader),)
+
+        def setup(self, c):
+            b = {"cls": get_module("py7zr.archiveinfo").classes[clsname], "file": c.opq("file")}
+            for n in extra:
+                b[n] = c.opq(n)
+            return b
+
+        def call_args(self, bound):
+            return [bound["cls"], bound["file"]] + [bound[n] for n in extra], {}
+
+        def raises(self):
+            return [RaiseSpec("Exception")]
+
+        def ensures(self, c, old, result, **b):
+            eng = c.eng
+            if eng.ctx_mode == "assume":
+                return []
+            calls = [e for e in eng.trace if e.kind == "call"]
+            ok = len(calls) == 2 and calls[0].name.endswith(":" + clsname) and calls[0].args == () and _last(calls[1]) == reader
+            out = [("instantiate-then-read-once-and-nothing-else", bool(ok))]
+            if ok:
+                obj = calls[0].result
+                want = [b["file"]] + [b[n] for n in extra]
+                out += [
+                    ("reader-runs-on-the-new-object", bool(calls[1].recv is obj)),
+                    ("reader-gets-the-callers-stream-and-arguments", bool(len(calls[1].args) == len(want) and all(x is y for x, y in zip(calls[1].args, want)))),
+                    ("returns-the-new-object", bool(result is obj)),
+                ]
+            return out
+
+    _R.__name__ = clsname + "Retrieve"
+    _R.__qualname__ = _R.__name__
+    _R.props = props
+    return contract(_R)
+
+
+StreamsInfoRetrieve = _retrieve_contract("StreamsInfo", "read", props=("C06",))
+UnpackInfoRetrieve = _retrieve_contract("UnpackInfo", "_read", props=("C06",))
+SubstreamsInfoRetrieve = _retrieve_contract("SubstreamsInfo", "_read", extra=("numfolders", "folders"), props=("C06",))
+FilesInfoRetrieve = _retrieve_contract("FilesInfo", "_read", props=("C06",))
+FolderRetrieve = _retrieve_contract("Folder", "_read", props=("C06",))
